@@ -1364,6 +1364,7 @@ class Parallel(Logger):
         self._backend = backend
         self._running = False
         self._calling = False
+        self._detached_exit_thread = None
         self._managed_backend = False
         self._id = uuid4().hex
         self._call_ref = None
@@ -1747,7 +1748,11 @@ class Parallel(Logger):
                             _parallel._warn_exit_early()
                         _parallel._terminate_and_reset()
 
-                _GeneratorExitThread(name="GeneratorExitThread").start()
+                # The next call on this instance waits for this clean-up.
+                self._detached_exit_thread = _GeneratorExitThread(
+                    name="GeneratorExitThread"
+                )
+                self._detached_exit_thread.start()
                 return
 
             # Otherwise, we are in the thread that started the dispatch: we can
@@ -2022,6 +2027,14 @@ class Parallel(Logger):
 
     def __call__(self, iterable):
         """Main function to dispatch parallel tasks."""
+
+        # The clean-up of a previous run whose output generator was finalised
+        # in another thread is done by a helper thread: wait for it, it would
+        # otherwise abort this run and terminate its backend.
+        exit_thread = self._detached_exit_thread
+        if exit_thread is not None and exit_thread is not threading.current_thread():
+            exit_thread.join()
+            self._detached_exit_thread = None
 
         self._reset_run_tracking()
         try:
